@@ -292,7 +292,7 @@ def random_name(rng, intl=False, maxlen=30, hostile=False):
         if intl: alphabet += list(range(0xc0, 0x100))
     return bytes(rng.choice(alphabet) for _ in range(n))
 
-def random_tree(rng, intl=False, nfiles=8, ndirs=3, maxsize=60000, links=False, dbs=488):
+def random_tree(rng, intl=False, nfiles=8, ndirs=3, maxsize=60000, links=False, dbs=488, fill488=False):
     """a random tree with unique (case-folded) names per directory"""
     sizes = [0, 1, dbs-1, dbs, dbs+1, 2*dbs, 71*dbs, 72*dbs, 72*dbs+1, 73*dbs, 144*dbs+5]
     dirs = [[]]          # kid lists
@@ -324,4 +324,10 @@ def random_tree(rng, intl=False, nfiles=8, ndirs=3, maxsize=60000, links=False, 
             parent.append(HardLink(fresh(parent, rng), tgt))
         parent = rng.choice(dirs)
         parent.append(SoftLink(fresh(parent, rng), b"some/where"))
+    if fill488:
+        # a directory whose cache records fill a cache block EXACTLY to its last byte: 14 records of 32 bytes and one of 40
+        d = Dir(b"full488", date=(100, 2, 3))
+        for i in range(14): d.kids.append(File(b"f%02dabcd" % i, b"", date=(200 + i, 1, 1)))
+        d.kids.append(File(b"f14abcdefghijkl", b"x", date=(300, 1, 1)))
+        dirs[0].append(d)
     return dirs[0]
